@@ -270,6 +270,14 @@ class SourceToSourceFileImportsTransformation(SourceToSourceTransformationBase):
         non-comment statement.  Intended to be used when the input contains no
         import blocks (before uses).
         """
+        for block in self.blocks[:2]:
+            if (isinstance(block, SourceToSourceImportBlockTransformation)
+                and any(imp.split.module_name == "__future__"
+                        for imp in block.importset.imports)):
+                # The file starts (after comments and docstring) with a block
+                # of ``__future__`` imports.  Nothing may come before them:
+                # use that block.
+                return block
         block = SourceToSourceImportBlockTransformation("")
         sepblock = SourceToSourceTransformation("")
         sepblock._output = PythonBlock("\n")
